@@ -31,8 +31,32 @@ def ex_fetch(repo):
     return out + ms + [fh, ft]
 
 
+def mir_release_on_new_last_state(which):
+    """When the peer answers a proof request with a NEW last state (and no data), the request is dropped by the caller, so the in-flight
+    hashes must be marked `timeout` - otherwise nothing ever offers them to another peer (they are neither listed by get_*_to_fetch nor
+    released when the peer disconnects, because its request is gone)."""
+    def f(cfg):
+        import mirpaths
+        q = mirpaths.Query(cfg)
+        pls = cfg.find_calls(r'LightClientProtocol::process_last_state$')
+        rets = [b for b, t in cfg.term.items() if t.startswith('return') and b not in cfg.cleanup]
+        if not rets:
+            raise mirpaths.MirError('no return block')
+        q.witness(pls, 'process_last_state reachable')
+        for c in pls:
+            ok = cfg.result_edges(c)['ok']
+            q.must_call(rets, r'Peers::mark_fetching_%s_timeout$' % which, 'the handler returns after accepting a new last state without marking the in-flight %s as timed out '
+                        '(the fetch request is lost: no other peer is ever asked)' % which, src=ok[1])
+        return q
+    return f
+
+
 def obligations():
     obs = [
+        MirOb('O16.3-release-headers', 'SendBlocksProofProcess::execute_internally: after a reply that only carries a new last state, the in-flight header fetches are marked timeout',
+              r'send_blocks_proof\.rs:\d+:\d+: \d+:\d+>::execute_internally\(', mir_release_on_new_last_state('headers'), src_rel=SBP),
+        MirOb('O16.3-release-txs', 'SendTransactionsProofProcess::execute_internally: after a reply that only carries a new last state, the in-flight transaction fetches are marked timeout',
+              r'send_transactions_proof\.rs:\d+:\d+: \d+:\d+>::execute_internally\(', mir_release_on_new_last_state('txs'), src_rel=STP),
         KModelOb('O16.1-step', 'fetch', 'step', 'fetch bookkeeping (real text): a request disappears only by delivery; add (re)starts as added; sending sets '
                  'first_sent once and clears the timeout; a timed-out / disconnected peer marks exactly its in-flight hashes and they become '
                  'eligible again; get_*_to_fetch lists exactly the never-sent and timed-out requests; a disconnected peer leaves no entry',
